@@ -57,6 +57,7 @@ type FaultAt struct {
 type Deviation struct {
 	Task     string `json:"task"`
 	N        int    `json:"n"`
+	K        int    `json:"k,omitempty"` // k-th time (Task, N) is the default pick
 	SwitchTo string `json:"switch_to,omitempty"`
 	DelayMs  int    `json:"delay_ms,omitempty"`
 }
@@ -64,6 +65,9 @@ type Deviation struct {
 type Plan struct {
 	Deviations []Deviation `json:"deviations,omitempty"`
 	Faults     []FaultAt   `json:"faults,omitempty"`
+	// Victims: for the k-th organic deadlock of the run, which member of the cycle is aborted
+	// (0 = the session that closed the cycle)
+	Victims []int `json:"victims,omitempty"`
 }
 
 // Explore holds the knobs of random exploration (nil = pure replay of Plan).
@@ -130,8 +134,10 @@ type World struct {
 	recorded Plan
 	faultsN  int
 
-	current string
-	steps   int
+	current   string
+	picks     map[string]int
+	deadlocks int
+	steps     int
 	simTime time.Duration
 	log     []string
 	probes  map[string]int
@@ -144,6 +150,7 @@ type World struct {
 	onCrash func()
 	cancels     map[string]context.CancelFunc // op id -> cancel of its request context
 	deadCancels []context.CancelFunc
+	gone        map[string]chan struct{} // op id -> closed when the client of that request goes away
 	firedAt     []FaultAt
 }
 
@@ -156,10 +163,13 @@ func NewWorld() *World {
 		devIdx:     map[string]*Deviation{},
 		faultIdx:   map[string]*FaultAt{},
 		probes:     map[string]int{},
+		picks:      map[string]int{},
 		fired:      map[FaultKind]int{},
 		cancels:    map[string]context.CancelFunc{},
+		gone:       map[string]chan struct{}{},
 	}
 	w.db = NewDB(&w.eventCtr)
+	w.db.chooseVictim = w.chooseVictim
 	return w
 }
 
@@ -167,7 +177,7 @@ func (w *World) SetPlan(p Plan) {
 	w.plan = p
 	for i := range p.Deviations {
 		d := &p.Deviations[i]
-		w.devIdx[fmt.Sprintf("%s#%d", d.Task, d.N)] = d
+		w.devIdx[fmt.Sprintf("%s#%d@%d", d.Task, d.N, d.K)] = d
 	}
 	for i := range p.Faults {
 		f := &p.Faults[i]
@@ -329,6 +339,11 @@ func (w *World) Step() bool {
 	// deviations are addressed to the task the default policy picked
 	addr := fmt.Sprintf("%s#%d", chosen.key, chosen.n)
 	if !chosen.lockWait {
+		// the same (task, yield) can be the default pick several times (each time it is pre-empted):
+		// deviations are addressed to the k-th such pick
+		k := w.picks[addr]
+		w.picks[addr] = k + 1
+		addr = fmt.Sprintf("%s@%d", addr, k)
 		if w.explore != nil {
 			var dev Deviation
 			if len(rs) > 1 && w.explore.Sched.Chance(w.explore.PreemptP) {
@@ -344,7 +359,7 @@ func (w *World) Step() bool {
 				dev.DelayMs = []int{1, 10, 100, 1000, 5000, 60000}[w.explore.Sched.Intn(6)]
 			}
 			if dev.SwitchTo != "" || dev.DelayMs != 0 {
-				dev.Task, dev.N = chosen.key, chosen.n
+				dev.Task, dev.N, dev.K = chosen.key, chosen.n, k
 				w.recorded.Deviations = append(w.recorded.Deviations, dev)
 				w.devIdx[addr] = &w.recorded.Deviations[len(w.recorded.Deviations)-1]
 			}
@@ -444,6 +459,21 @@ func (w *World) decideFault(p *parkedTask) *Fault {
 	return f
 }
 
+// chooseVictim is called (with db.mu held, by the task holding the baton) when a wait-for cycle closes.
+func (w *World) chooseVictim(n int) int {
+	k := w.deadlocks
+	w.deadlocks++
+	w.probes["organic_deadlock"]++
+	idx := 0
+	if w.explore != nil {
+		idx = w.explore.Sched.Intn(n)
+		w.recorded.Victims = append(w.recorded.Victims, idx)
+	} else if k < len(w.plan.Victims) {
+		idx = w.plan.Victims[k] % n
+	}
+	return idx
+}
+
 // opIDOf returns the operation id part of a task key ("c1.3/e2" -> "c1.3").
 func opIDOf(key string) string {
 	if i := strings.IndexByte(key, '/'); i >= 0 {
@@ -461,6 +491,12 @@ func (w *World) disconnect(p *parkedTask) {
 	if cancel == nil {
 		return
 	}
+	w.mu.Lock()
+	if g := w.gone[opIDOf(p.key)]; g != nil {
+		close(g)
+		delete(w.gone, opIDOf(p.key))
+	}
+	w.mu.Unlock()
 	cancel()
 	w.wakeCancelledLockWaiters()
 }
